@@ -8,7 +8,7 @@ import copy
 def junk_pool():
     # fresh objects each call (some are mutable)
     return [
-        None, True, False, 0, 1, -1, 12, 10**30, 1.5, -0.0, float("nan"), float("inf"),
+        None, True, False, 0, 1, -1, 12, 3, 7, 10**30, 1.5, -0.0, float("nan"), float("inf"),
         "", "x", "garbage", "12", "1.5", "2020-01-01", "2020-01-01T10:00:00+03:00", "10:20:30",
         "UTC+25:00", "UTC-00:30", "UTC", "a", "true", "None", "1/3",
         "00000000-0000-0000-0000-000000000001", "127.0.0.1", "::1", "YWJj\n",
